@@ -2,52 +2,154 @@
 import re
 
 from .. import lib, mir
+from .. import lib_sw as S
 from ..mir import render
 
-EXPLANATION = ("NotifyHandler::Any captures the established connection ids at emission time (handle_behaviour_event); notify_one's "
-               "decision table (Pending -> give event back, Err -> consume, Ok -> deliver once + consume); notify_any delivers at most "
-               "once (a successful notify_handler leaves the loop), queues only not-ready connections and returns the event only with a "
-               "non-empty pending list; poll_next_event polls the behaviour only when no handler event is pending and stores every "
-               "returned event back into pending_handler_event; Command::NotifyHandler is sent only through the addressed connection's "
-               "own sender.")
+EXPLANATION = ("NotifyHandler::Any captures the established connection ids at emission time (where the behaviour's request is "
+               "converted) and a request for One(c) is parked as One(c) (arm table on the requested target); the only other place a "
+               "pending Any target is built re-uses the not-ready list returned by the any-delivery helper (no re-capture); the "
+               "one-delivery helper's decision table (Pending -> give event back, Err -> consume, Ok -> deliver once + consume); the "
+               "any-delivery helper delivers at most once (a successful notify_handler leaves the loop), queues only not-ready "
+               "connections and returns the event only with a non-empty pending list; the swarm poll loop polls the behaviour only "
+               "when no handler event is pending and stores every returned event back; Command::NotifyHandler is sent only through the "
+               "addressed connection's own sender.  Bodies, parameters, locals and the parked-event field are identified by role "
+               "(types, positions, value flow), not by their names.")
 ASSUMPTIONS = ["FIFO of futures::mpsc per connection", "fairness under back-pressure is not decided"]
 SW = "libp2p_swarm"
+PNH = r"^libp2p_swarm::PendingNotifyHandler$"
+ITER_EST = r"pool::Pool::iter_established_connections_of_peer$"
+
+
+def _proj_root(e):
+    """(root expression, list of projection names) of a chain of field/downcast projections"""
+    path = []
+    while e[0] in ("field", "downcast"):
+        path.append(e[2])
+        e = e[1]
+    return e, list(reversed(path))
+
+
+def _ends_variant(e, variant, idx="0"):
+    """e is `<x>@variant.idx`"""
+    return e[0] == "field" and e[2] == idx and e[1][0] == "downcast" and e[1][2] == variant
 
 
 def check(ctx):
     prog = ctx.prog
-    # ---- capture at emission time
-    hb = ctx.body(SW, r"^libp2p_swarm::Swarm::handle_behaviour_event$")
-    anys = hb.agg_sites(r"^libp2p_swarm::PendingNotifyHandler$", "Any")
-    ctx.floor("capture", "PendingNotifyHandler::Any constructions", anys, 1)
-    for s in anys:
-        r = render(hb.site_expr(s))
-        ctx.ob("capture", "Any(ids) from established set of that peer", "Pool::iter_established_connections_of_peer(self.pool, " in r and "@NotifyHandler.peer_id" in r,
-               s.loc(), "ids = %s" % r[:200])
-    ones = hb.agg_sites(r"^libp2p_swarm::PendingNotifyHandler$", "One")
-    for s in ones:
-        r = render(hb.site_expr(s))
-        ctx.ob("capture", "One(id) is the requested id", "@One.0" in r, s.loc(), "One(%s)" % r[-80:])
-    who = {b.npath for b in prog.bodies(SW) if b.agg_sites(r"^libp2p_swarm::PendingNotifyHandler$")}
-    ctx.ob("capture", "who constructs PendingNotifyHandler", who <= {"libp2p_swarm::Swarm::handle_behaviour_event", "libp2p_swarm::Swarm::poll_next_event"},
-           msg="constructed in %s" % sorted(who))
-    # stored with the same peer + event
-    st = hb.field_write_sites("pending_handler_event")
-    ctx.floor("capture", "pending_handler_event store in handle_behaviour_event", st, 1)
-    for s in st:
-        r = render(hb.site_expr(s))
-        ctx.ob("capture", "stored tuple = (peer_id, handler, event) of the request", "@NotifyHandler.peer_id" in r and "@NotifyHandler.event" in r, s.loc(), r[:160])
-    # ---- notify_one table
-    n1 = ctx.body(SW, r"^libp2p_swarm::notify_one$")
-    res = [mir.Site(n1, x[1], x[2]) for x in n1.defs[0]]
-    am = [(r"^discr\(libp2p_swarm::connection::pool::EstablishedConnection::poll_ready_notify_handler\(conn, cx\)\)$", "ready"),
-          (r"^discr\(libp2p_swarm::connection::pool::EstablishedConnection::poll_ready_notify_handler\(conn, cx\)@Ready\.0\)$", "res")]
+    fld = S.field_by_type(prog, r"^libp2p_swarm::Swarm$", r"PendingNotifyHandler")       # the parked (peer, target, event)
+    # ---- every construction of a pending target, crate-wide, classified by where its payload comes from
+    emit, retry, ones, other = [], [], [], []
+    for b in prog.bodies(SW):
+        sites = b.agg_sites(PNH)
+        if not sites:
+            continue
+        S.neutral(b)
+        ctx.use(b)
+        for s in sites:
+            e = b.site_expr(s)
+            payload = dict(e[4]).get("0")
+            if e[3] == "One":
+                ones.append((b, s, payload))
+                continue
+            caps = mir.calls_in(payload, ITER_EST)
+            if caps:
+                emit.append((b, s, payload, caps))
+                continue
+            root, path = _proj_root(payload)
+            if root[0] == "call" and S.crate_fn(prog, root[1]) is not None and any(_ends_variant(a, "Any") for a in root[2]):
+                retry.append((b, s, payload, root, path))
+            else:
+                other.append((b, s, payload))
+    ctx.floor("capture", "PendingNotifyHandler::Any built at emission time", emit, 1)
+    ctx.floor("capture", "PendingNotifyHandler::Any rebuilt for a retry", retry, 1)
+    ctx.floor("capture", "PendingNotifyHandler::One constructions", ones, 1)
+    for b, s, payload in other:
+        ctx.ob("capture", "Any(ids) is either captured at emission or the not-ready rest of the previous attempt", False, s.loc(),
+               "PendingNotifyHandler::Any built from %s" % render(payload)[:200])
+    ctx.ob("capture", "no other origin of Any candidate lists", not other, msg="%d construction(s) of PendingNotifyHandler::Any with another origin" % len(other))
+    for b, s, payload, caps in emit:
+        ok = all(len(c[2]) == 2 and _proj_root(c[2][1])[1][-2:] == ["NotifyHandler", "peer_id"] for c in caps)
+        ctx.ob("capture", "Any(ids) from established set of that peer", ok, s.loc(), "ids = %s" % render(payload)[:200])
+    for b, s, payload in ones:
+        root, path = _proj_root(payload)
+        ok = path[-2:] == ["One", "0"] and not mir.calls_in(payload, ITER_EST)
+        ctx.ob("capture", "One(id) is the requested id", ok, s.loc(), "One(%s)" % render(payload)[-80:])
+    for b, s, payload, root, path in retry:
+        ok = path[:1] == ["Some"] and not mir.calls_in(payload, ITER_EST)
+        ctx.ob("capture", "retry keeps the candidates returned by the previous attempt (no re-capture)", ok, s.loc(), "Any(%s)" % render(payload)[-120:])
+    # ---- arm table at emission: request One -> parked One, request Any -> parked Any; stored with the same peer + event
+    hbs = {b.npath: b for b, _, _, _ in emit}
+    for hb in hbs.values():
+        st = hb.field_write_sites(fld)
+        ctx.floor("capture", "parked-event store at emission", st, 1)
+        for s in st:
+            e = hb.site_expr(s)
+            r = render(e)
+            tup = None
+            for x in mir.walk(e):
+                if x[0] == "agg" and x[1] == "tuple" and len(x[4]) == 3:
+                    tup = dict(x[4])
+                    break
+            ok = tup is not None and _proj_root(tup["0"])[1][-2:] == ["NotifyHandler", "peer_id"] and _proj_root(tup["2"])[1][-2:] == ["NotifyHandler", "event"]
+            ctx.ob("capture", "stored tuple = (peer_id, handler, event) of the request", ok, s.loc(), r[:160])
+        sw = S.switch_blocks(hb, lambda c, r: c[0] == "discr" and _proj_root(c[1])[1][-2:] == ["NotifyHandler", "handler"])
+        ctx.ob("capture", "floor:dispatch on the requested target", len(sw) == 1, nontrivial=False, msg="switches on discr(request.handler): %d" % len(sw))
+        my_any = lib.bbs([s for b, s, _, _ in emit if b is hb])
+        my_one = lib.bbs([s for b, s, _ in ones if b is hb])
+        for bi, cond, labs in sw[:1]:
+            for tgt, ls in labs.items():
+                for lab in sorted(ls):
+                    if lab not in ("One", "Any"):
+                        ctx.ob("capture", "request target %s has a parked form" % lab, False, msg="unexpected NotifyHandler variant")
+                        continue
+                    same, cross = (my_one, my_any) if lab == "One" else (my_any, my_one)
+                    ends = lib.bbs(st) + hb.return_blocks()
+                    got_same = lib.count_range(hb, [tgt], lib.bbs(st), same) if st else None
+                    got_cross = lib.count_range(hb, [tgt], ends, cross)
+                    ctx.ob("capture", "request %s is parked as %s" % (lab, lab), got_same == (1, 1) and got_cross in ((0, 0), None),
+                           "%s:%d" % (hb.file, hb.blocks[bi]["term"].get("l", 0)),
+                           "on the %s arm: PendingNotifyHandler::%s built %s, the other variant %s (expected (1, 1) / (0, 0))" % (lab, lab, got_same, got_cross))
+    # ---- the poll loop: the body that rebuilds Any for a retry
+    pns = {b.npath: b for b, _, _, _, _ in retry}
+    ctx.ob("poll", "floor:poll loop body", len(pns) == 1, nontrivial=False, msg=str(sorted(pns)))
+    if len(pns) != 1:
+        return
+    pn = list(pns.values())[0]
+    any_calls = [s for s in pn.call_sites() if S.crate_fn(prog, pn.call_name(s.term)) is not None and any(_ends_variant(a, "Any") for a in pn.site_expr(s)[2])]
+    one_calls = [s for s in pn.call_sites() if S.crate_fn(prog, pn.call_name(s.term)) is not None and
+                 any(any(_ends_variant(a2, "One") for c in mir.calls_in(a, r"pool::Pool::get_established$") for a2 in c[2]) for a in pn.site_expr(s)[2])
+                 and not re.search(r"pool::Pool::get_established$", mir.strip_generics(pn.call_name(s.term)))]
+    ctx.floor("poll", "any-delivery call", any_calls, 1, exact=True)
+    ctx.floor("poll", "one-delivery call", one_calls, 1, exact=True)
+    if not any_calls or not one_calls:
+        return
+    n1 = S.neutral(S.crate_fn(prog, pn.call_name(one_calls[0].term)))
+    na = S.neutral(S.crate_fn(prog, pn.call_name(any_calls[0].term)))
+    ctx.use(n1)
+    ctx.use(na)
+    # the candidates handed to the any-delivery helper are the parked ones; the target of the one-delivery is the parked id
+    take_pat = lambda e: any(c[2] and S.has_field(c[2][0], fld) for c in mir.calls_in(e, r"Option::take$"))
+    for s in any_calls:
+        ids = [a for a in pn.site_expr(s)[2] if _ends_variant(a, "Any")]
+        ctx.ob("poll", "retry uses the parked candidate ids", bool(ids) and all(take_pat(a) for a in ids), s.loc(), render(ids[0])[:160] if ids else "")
+    for s in one_calls:
+        tgt = [a2 for a in pn.site_expr(s)[2] for c in mir.calls_in(a, r"pool::Pool::get_established$") for a2 in c[2] if _ends_variant(a2, "One")]
+        ctx.ob("poll", "One retry addresses the parked connection id", bool(tgt) and all(take_pat(a) for a in tgt), s.loc(), render(tgt[0])[:160] if tgt else "")
+    # ---- one-delivery table
+    i_conn = S.param_of_type(n1, r"pool::EstablishedConnection<")
+    i_cx = S.param_of_type(n1, r"task::Context<")
+    i_ev = [i for i in range(1, n1.argc + 1) if i not in (i_conn, i_cx)]
+    ctx.ob("notify_one", "floor:parameters", len(i_ev) == 1, nontrivial=False, msg="connection=p%d cx=p%d event=%s" % (i_conn, i_cx, i_ev))
+    i_ev = i_ev[0] if i_ev else 0
+    res = S.ret_sites(n1)
+    ready = r"libp2p_swarm::connection::pool::EstablishedConnection::poll_ready_notify_handler\(p%d, p%d\)" % (i_conn, i_cx)
+    am = [(r"^discr\(%s\)$" % ready, "ready"), (r"^discr\(%s@Ready\.0\)$" % ready, "res")]
     notify = n1.call_sites(r"EstablishedConnection::notify_handler$")
 
     def v1(s):
         r = render(n1.site_expr(s))
         delivered = bool(lib.count_range(n1, [0], [s.bb], lib.bbs(notify)) == (1, 1))
-        if r == "std::option::Option::Some{0: event}":
+        if r == "std::option::Option::Some{0: p%d}" % i_ev:
             return "give-back" + ("+deliver" if delivered else "")
         if r == "std::option::Option::None{}":
             return "consume" + ("+deliver" if delivered else "")
@@ -56,12 +158,27 @@ def check(ctx):
                     lambda a: "give-back" if a["ready"] == "Pending" else ("consume+deliver" if a["res"] == "Ok" else "consume"),
                     "%s:%d" % (n1.file, n1.line))
     for s in notify:
-        ctx.ob("notify_one", "delivers the given event", render(n1.site_expr(s)) == "libp2p_swarm::connection::pool::EstablishedConnection::notify_handler(conn, event)",
+        ctx.ob("notify_one", "delivers the given event", render(n1.site_expr(s)) == "libp2p_swarm::connection::pool::EstablishedConnection::notify_handler(p%d, p%d)" % (i_conn, i_ev),
                s.loc(), render(n1.site_expr(s)))
-    # ---- notify_any
-    na = ctx.body(SW, r"^libp2p_swarm::notify_any$")
+    # ---- any-delivery
+    i_ids = S.param_of_type(na, r"^smallvec::SmallVec<\[connection::ConnectionId")
+    i_cx = S.param_of_type(na, r"task::Context<")
+    i_pool = S.param_of_type(na, r"pool::Pool<")
+    i_ev = [i for i in range(1, na.argc + 1) if i not in (i_ids, i_cx, i_pool)]
+    ctx.ob("notify_any", "floor:parameters", len(i_ev) == 1, nontrivial=False, msg="ids=p%d pool=p%d cx=p%d event=%s" % (i_ids, i_pool, i_cx, i_ev))
+    i_ev = i_ev[0] if i_ev else 0
     nh = na.call_sites(r"EstablishedConnection::notify_handler$")
     ctx.floor("notify_any", "notify_handler call", nh, 1)
+    it_next = [s for s in na.call_sites(r"Iterator>::next$|Iterator::next$")]
+    ctx.floor("notify_any", "ids iterator next()", it_next, 1)
+    # the iterated collection is the ids parameter
+    if it_next:
+        e = na.site_expr(it_next[0])
+        src = []
+        for l in S.locals_in(e):
+            src += [render(x) for _, x in S.defs_exprs(na, l)]
+        src.append(render(e))
+        ctx.ob("notify_any", "candidates iterated are the given ids", any("into_iter(p%d)" % i_ids in x for x in src), it_next[0].loc(), str(src)[:200])
     for s in nh:
         ok_e = lib.switch_edges_on_site(na, s, {"Ok"})
         ctx.ob("notify_any", "floor:Ok edge", len(ok_e) == 1, nontrivial=False, msg=str(ok_e))
@@ -72,15 +189,28 @@ def check(ctx):
         ctx.guarded("notify_any", "deliver only when ready", s,
                     lambda c, rr, l: l == "Ok" and rr.startswith("discr(libp2p_swarm::connection::pool::EstablishedConnection::poll_ready_notify_handler(") and rr.endswith("@Ready.0)"),
                     "poll_ready_notify_handler == Ready(Ok)")
-        e = render(na.site_expr(s))
-        ctx.ob("notify_any", "delivers to a connection from the captured ids", "Pool::get_established(pool, " in e and "Iterator>::next(" in e, s.loc(), e[:200])
+        e = na.site_expr(s)
+        ge = mir.calls_in(e[2][0], r"pool::Pool::get_established$")
+        ok = bool(ge) and bool(it_next) and any(S.call_at(a, it_next[0].bb) is not None for c in ge for a in c[2])
+        ctx.ob("notify_any", "delivers to a connection from the captured ids", ok, s.loc(), render(e)[:200])
     push = [s for s in na.call_sites(r"SmallVec::push$")]
     ctx.floor("notify_any", "pending.push", push, 1)
     for s in push:
         ctx.guarded("notify_any", "queue only not-ready connections", s,
                     lambda c, rr, l: l == "Pending" and "poll_ready_notify_handler(" in rr, "poll_ready_notify_handler == Pending")
+        e = na.site_expr(s)
+        ok = bool(it_next) and _ends_variant(e[2][1], "Some") and S.call_at(e[2][1], it_next[0].bb) is not None
+        ctx.ob("notify_any", "the queued id is the not-ready connection's id", ok, s.loc(), render(e[2][1])[:120])
     ret = na.call_sites(r"Option::and_then$")
-    ok = len(ret) == 1 and render(na.site_expr(ret[0])).startswith("std::option::Option::and_then(event, closure:")
+    ok = len(ret) == 1
+    ev_local = None
+    if ok:
+        e = na.site_expr(ret[0])
+        recv = e[2][0]
+        ok = recv[0] == "local" and any(render(x) == "std::option::Option::Some{0: p%d}" % i_ev for _, x in S.defs_exprs(na, recv[1]))
+        ev_local = recv[1] if recv[0] == "local" else None
+        # result of the function is this call
+        ok = ok and any(S.call_at(x, ret[0].bb) is not None for x in S.ret_exprs(na))
     ctx.ob("notify_any", "result = event.and_then(non-empty pending)", ok, ret[0].loc() if ret else "", "return value built from the remaining event")
     # the event is consumed only by a successful delivery: every return not preceded by notify_handler == Ok goes
     # through the final `event.and_then(..)` (so a closing / not-ready connection never swallows the event)
@@ -92,31 +222,40 @@ def check(ctx):
     ctx.ob("notify_any", "event only consumed by delivery (no early return)", not early and bool(ret), "%s:%d" % (na.file, na.line),
            "returns reachable without a successful delivery and without the final and_then: %s" % early)
     # all captured connections are tried: the loop is left only on iterator exhaustion or successful delivery
-    it_next = na.call_sites(r"smallvec::IntoIter as std::iter::Iterator>::next$")
-    ctx.floor("notify_any", "ids iterator next()", it_next, 1)
     if it_next and ret:
         none_e = lib.switch_edges_on_site(na, it_next[0], {"None"})
         r2 = na.reachable([0], blocked_edges=ok_edges | none_e)
         ctx.ob("notify_any", "loop left only when ids are exhausted or the event was delivered", ret[0].bb not in r2, ret[0].loc(),
                "final result reachable only via ids.next()==None or notify_handler==Ok")
-    cl = ctx.body(SW, r"^libp2p_swarm::notify_any::\{closure#0\}$")
-    res = [mir.Site(cl, x[1], x[2]) for x in cl.defs[0]]
-    lib.check_cells(ctx, "notify_any", "retry only with candidates", cl, res,
-                    lambda s: "Some(e,pending)" if render(cl.site_expr(s)) == "std::option::Option::Some{0: tuple{0: e, 1: ^pending}}" else ("None" if render(cl.site_expr(s)) == "std::option::Option::None{}" else "?"),
-                    [(r"^smallvec::SmallVec::is_empty\(\^pending\)$", "empty")], {"empty": ["true", "false"]},
-                    lambda a: "None" if a["empty"] == "true" else "Some(e,pending)", "%s:%d" % (cl.file, cl.line))
-    # ---- poll_next_event
-    pn = ctx.body(SW, r"^libp2p_swarm::Swarm::poll_next_event$")
+    if ret:
+        cl = S.closure_at(prog, na, ret[0])
+        ctx.use(cl)
+        _, caps = S.closure_captures(na, na.site_expr(ret[0]))
+        pushed_into = {render(na.site_expr(s)[2][0]) for s in push}
+        ctx.ob("notify_any", "retry list is the list of not-ready connections", len(caps) == 1 and {render(caps[0])} == pushed_into, ret[0].loc(),
+               "closure captures %s, pushes go to %s" % ([render(c) for c in caps], sorted(pushed_into)))
+        res = S.ret_sites(cl)
+        i_e = cl.argc      # the closure's only parameter (after the environment)
+
+        def vc(s):
+            r = render(cl.site_expr(s))
+            if re.match(r"^std::option::Option::Some\{0: tuple\{0: p%d, 1: \^\*?u0\}\}$" % i_e, r):
+                return "Some(e,pending)"
+            return "None" if r == "std::option::Option::None{}" else "?" + r[:60]
+        lib.check_cells(ctx, "notify_any", "retry only with candidates", cl, res, vc,
+                        [(r"^smallvec::SmallVec::is_empty\(\^\*?u0\)$", "empty")], {"empty": ["true", "false"]},
+                        lambda a: "None" if a["empty"] == "true" else "Some(e,pending)", "%s:%d" % (cl.file, cl.line))
+    # ---- the poll loop
     bp = pn.call_sites(r"NetworkBehaviour::poll$")
     ctx.floor("poll", "behaviour.poll", bp, 1)
+
+    def is_take(c):
+        return c[0] == "discr" and S.is_call(c[1], r"Option::take$") and c[1][2] and S.has_field(c[1][2][0], fld)
     for s in bp:
         ctx.guarded("poll", "behaviour polled only when no handler event pending", s,
-                    lambda c, rr, l: l == "None" and rr == "discr(std::option::Option::take(this.pending_handler_event))",
-                    "pending_handler_event.take() == None")
-    stores = pn.field_write_sites("pending_handler_event")
-    for fn in ("notify_one", "notify_any"):
-        cs = pn.call_sites(r"^libp2p_swarm::%s$" % fn)
-        ctx.floor("poll", fn + " call", cs, 1)
+                    lambda c, rr, l: l == "None" and is_take(c), "pending_handler_event.take() == None")
+    stores = pn.field_write_sites(fld)
+    for fn, cs in (("notify_one", one_calls), ("notify_any", any_calls)):
         for s in cs:
             some_e = lib.switch_edges_on_site(pn, s, {"Some"})
             tg = [t for _, t in some_e]
@@ -127,8 +266,21 @@ def check(ctx):
                        "this.pending_handler_event = Some(..) on the Some edge", s.loc())
             for w in stores:
                 if w.bb in pn.reachable(tg, blocked_nodes=stops):
-                    r = render(pn.site_expr(w))
-                    ctx.ob("poll", "%s: stored event is the returned one" % fn, fn + "(" in r and "@Some.0" in r, w.loc(), r[:200])
+                    e = pn.site_expr(w)
+                    tup = None
+                    for x in mir.walk(e):
+                        if x[0] == "agg" and x[1] == "tuple" and len(x[4]) == 3:
+                            tup = dict(x[4])
+                            break
+                    ok = tup is not None and S.call_at(tup["2"], s.bb) is not None and "Some" in _proj_root(tup["2"])[1]
+                    ctx.ob("poll", "%s: stored event is the returned one" % fn, ok, w.loc(), render(e)[:200])
+                    ok = tup is not None and take_pat(tup["0"]) and _proj_root(tup["0"])[1][-3:] == ["Some", "0", "0"]
+                    ctx.ob("poll", "%s: stored back for the same peer" % fn, ok, w.loc(), render(tup["0"])[:120] if tup else "")
+                    if fn == "notify_one" and tup is not None:
+                        h = tup["1"]
+                        ok = (take_pat(h) and _proj_root(h)[1][-3:] == ["Some", "0", "1"]) or \
+                             (h[0] == "agg" and h[3] == "One" and take_pat(h) and _proj_root(dict(h[4])["0"])[1][-2:] == ["One", "0"])
+                        ctx.ob("poll", "notify_one: stored back for the same connection", ok, w.loc(), render(h)[:160])
     # ---- who sends Command::NotifyHandler
     who = {}
     for b in prog.bodies(SW):
@@ -136,9 +288,10 @@ def check(ctx):
             who.setdefault(b.npath, []).append(s)
     ctx.ob("who", "Command::NotifyHandler constructed only in EstablishedConnection::notify_handler",
            set(who) == {"libp2p_swarm::connection::pool::EstablishedConnection::notify_handler"}, msg=str(sorted(who)))
-    nhb = ctx.body(SW, r"pool::EstablishedConnection::notify_handler$")
+    nhb = S.nbody(ctx, r"pool::EstablishedConnection::notify_handler$")
+    sender = S.field_by_type(prog, r"pool::EstablishedConnection$", r"mpsc::Sender<")
     ts = nhb.call_sites(r"mpsc::Sender::try_send$")
-    ok = len(ts) == 1 and render(nhb.site_expr(ts[0])).startswith("futures::futures_channel::mpsc::Sender::try_send(self.sender, libp2p_swarm::connection::pool::task::Command::NotifyHandler{0: event})")
+    ok = len(ts) == 1 and render(nhb.site_expr(ts[0])) == "futures::futures_channel::mpsc::Sender::try_send(self.%s, libp2p_swarm::connection::pool::task::Command::NotifyHandler{0: p2})" % sender
     ctx.ob("who", "sent through this connection's own sender", ok, "%s:%d" % (nhb.file, nhb.line), [render(nhb.site_expr(s))[:160] for s in ts].__str__())
     # the connection task delivers NotifyHandler to the handler in arrival order (single receive loop)
     c = ctx.body(SW, r"pool::task::new_for_established_connection::\{closure#0\}$", "coroutine")
